@@ -10,11 +10,25 @@ package golang
 //@   ensures result == 0 ==> a == b                       [C01]
 //@   ensures result == (a < b ? -1 : (a > b ? 1 : 0))     [C03 C08]
 
+// SemVer 2.0.0 section 11.4 on two identifiers (numeric identifiers are restricted to 18 digits, as in the property).
+//@ spec numericId(x string) bool = isdigits(x)
+//@ spec identCmp(x string, y string) int = (numericId(x) && numericId(y)) ? (numval(x) < numval(y) ? -1 : (numval(x) > numval(y) ? 1 : 0)) : (numericId(x) ? -1 : (numericId(y) ? 1 : (x == y ? 0 : (x < y ? -1 : 1))))
+//@ spec shortIds(p []string) bool = forall i int :: 0 <= i && i < len(p) ==> len(p[i]) > 0 && (isdigits(p[i]) ==> len(p[i]) <= 18)
+
 //@ func comparePrerelease
 //@   comparator a ~ b                                     [C01]
+//@   ensures both-release: a == "" && b == "" ==> result == 0                                            [C03 C08]
+//@   ensures release-wins: a == "" && b != "" ==> result == 1                                            [C03 C08]
+//@   ensures prerelease-loses: a != "" && b == "" ==> result == -1                                       [C03 C08]
+//@   ensures first-difference: a != "" && b != "" && shortIds(strings.Split(a, ".")) && shortIds(strings.Split(b, ".")) ==> (forall k int :: 0 <= k && k < len(strings.Split(a, ".")) && k < len(strings.Split(b, ".")) && (forall j int :: 0 <= j && j < k ==> identCmp(strings.Split(a, ".")[j], strings.Split(b, ".")[j]) == 0) && identCmp(strings.Split(a, ".")[k], strings.Split(b, ".")[k]) != 0 ==> result == identCmp(strings.Split(a, ".")[k], strings.Split(b, ".")[k]))   [C08]   // known finding: pre-releases are compared as plain strings
+//@   ensures longer-wins: a != "" && b != "" && shortIds(strings.Split(a, ".")) && shortIds(strings.Split(b, ".")) && (forall j int :: 0 <= j && j < len(strings.Split(a, ".")) && j < len(strings.Split(b, ".")) ==> identCmp(strings.Split(a, ".")[j], strings.Split(b, ".")[j]) == 0) ==> result == (len(strings.Split(a, ".")) < len(strings.Split(b, ".")) ? -1 : (len(strings.Split(a, ".")) > len(strings.Split(b, ".")) ? 1 : 0))   [C08]   // known finding (same cause)
 
 //@ func (*Version).Compare
 //@   comparator v ~ other                                 [C01]
+//@   ensures major: v.major != other.major ==> result == (v.major < other.major ? -1 : 1)                                             [C03 C08]
+//@   ensures minor: v.major == other.major && v.minor != other.minor ==> result == (v.minor < other.minor ? -1 : 1)                   [C03 C08]
+//@   ensures patch: v.major == other.major && v.minor == other.minor && v.patch != other.patch ==> result == (v.patch < other.patch ? -1 : 1)   [C03 C08]
+//@   ensures prerelease: v.major == other.major && v.minor == other.minor && v.patch == other.patch && v.pseudo == nil && other.pseudo == nil ==> result == comparePrerelease(v.prerelease, other.prerelease)   [C03 C08]   // build metadata is not consulted
 
 // ---- constructors: value xor error (C06); the fact is structural (untagged) because callers rely on it
 
